@@ -42,10 +42,10 @@ def monitor(ctx):
         nd = rng.choice([4, 5, 6] if not thorough else [5, 6, 7, 8])
         cfg["end"] = (pd.Timestamp(cfg["start"]) + pd.Timedelta(days=nd)).strftime("%Y/%m/%d")
         payloads.append({"cfg": cfg, "partitions": monitors2.compositions(nd)})
-    for i in range(28 if not thorough else 300):
+    for i in range(22 if not thorough else 300):
         rng = rng_for("C09", "long", i)
         cfg = sim.gen_config(rng)
-        parts = [[rng.choice([1, 1, 2, 3, 10, 50, 200, 1000]) for _ in range(rng.randint(1, 40))] for _ in range(2 if not thorough else 4)]
+        parts = [[rng.choice([1, 1, 2, 3, 10, 50, 200, 1000]) for _ in range(rng.randint(1, 40))] for _ in range(3 if not thorough else 6)]      # j % 2 == 1: activity between the calls; j % 3 == 2: typed flags
         # odd partitions are run with activity between the calls (worker_C09): give them pauses spread over the seasons
         for j in range(1, len(parts), 2):
             parts[j] = [rng.choice([1, 20, 45, 90, 150, 200, 365]) for _ in range(rng.randint(3, 12))]
